@@ -293,6 +293,12 @@ func c14Total(comp []int) int {
 func c14JudgeResponse(c c14Case, with, without wire.Response) (string, string) {
 	total := c14Total(c.Comp)
 	wantBody := c.Method != "HEAD" && c.Status != 204 && c.Status != 304
+	if c.Method == "HEAD" {
+		// what a handler writes in answer to a HEAD request is discarded by net/http: no body
+		// byte travels, the exchange is within every limit whatever the handler wrote (the
+		// balancer's own error answers are written with http.Error, whatever the method)
+		total = 0
+	}
 	if c.Abort {
 		// the handler broke off mid-body: what reaches the client must not look like a complete
 		// response (unless it is the 413)
